@@ -788,6 +788,8 @@ func signalRuns(c *lib.Ctx) {
 		{Name: "failing-start||second-start,SIGTERM", Overlap: "start", Signals: []string{"TERM"}},
 		{Name: "failing-reload||second-start,SIGINT", Overlap: "reload", Signals: []string{"INT"}},
 		{Name: "USR1ok,failing-start||second-start,SIGTERM", Reloads: []string{"ok"}, Overlap: "start", Signals: []string{"TERM"}},
+		{Name: "three-instances,SIGTERM||stop-of-the-first", Overlap: "stop-first", Signals: []string{"TERM"}},
+		{Name: "three-instances,SIGINT||stop-of-the-first", Overlap: "stop-first", Signals: []string{"INT"}},
 	}
 	reps := c.Pick(1, 16)
 	for r := 0; r < reps; r++ {
@@ -847,7 +849,7 @@ func runSignal(c *lib.Ctx, sc sigScenario, n int) {
 	for g := range gens {
 		sd, fsd := count(evs, g, "shutdown"), count(evs, g, "final-shutdown")
 		switch {
-		case sc.Overlap != "" && g == 60:
+		case sc.Overlap != "" && (g == 60 || (g == 70 && sc.Overlap == "stop-first")):
 			// the second instance is live at the end as well
 			if sd != 1 || fsd != 1 {
 				c.Violation("C16/process-shutdown-callbacks-not-exactly-once", fmt.Sprintf("%s: the second live instance (generation %d) ran shutdown %d times and final-shutdown %d times, want 1 and 1", sc.Name, g, sd, fsd), wit)
@@ -874,7 +876,7 @@ func runSignal(c *lib.Ctx, sc sigScenario, n int) {
 				c.Violation("C16/callback-more-than-once/shutdown", fmt.Sprintf("%s: generation %d ran shutdown %d times", sc.Name, g, sd), wit)
 			}
 		}
-		freshStart := g == 1 || (sc.Overlap != "" && g == 60) || (sc.Overlap == "start" && g == 50)
+		freshStart := g == 1 || (sc.Overlap != "" && (g == 60 || g == 70)) || (sc.Overlap == "start" && g == 50)
 		if count(evs, g, "first-startup") > 0 && !freshStart {
 			c.Violation("C16/unexpected-callback/first-startup/reload", fmt.Sprintf("%s: generation %d ran first-startup during a reload", sc.Name, g), wit)
 		}
@@ -973,7 +975,27 @@ func procChild(args []string) int {
 		fmt.Fprintf(os.Stderr, "RELOAD %s gen %d log:\n%s\n", r, gen, logs)
 		time.Sleep(10 * time.Millisecond)
 	}
-	if ov := in.Scenario.Overlap; ov != "" {
+	if in.Scenario.Overlap == "stop-first" {
+		// two more healthy instances; while the shutdown callbacks of the first
+		// one (they take a moment) are running, the first instance is stopped
+		for _, g := range []int{60, 70} {
+			if _, err := casket.Start(input(fmt.Sprintf("gen%d {\n srv 127.0.0.1:%d graceful\n cb\n}\n", g, in.Ports[3+(g-60)/10]))); err != nil {
+				fmt.Fprintln(os.Stderr, "stop-first: start:", err)
+				return 3
+			}
+		}
+		atomic.StoreInt32(&slowShutdownMs, 150)
+		go func() {
+			for i := 0; i < 30000; i++ {
+				if count(traceFrom(0), 1, "shutdown") > 0 {
+					inst.Stop()
+					emit(0, "op:first-instance-stopped", "")
+					return
+				}
+				time.Sleep(time.Millisecond)
+			}
+		}()
+	} else if ov := in.Scenario.Overlap; ov != "" {
 		held := input(fmt.Sprintf("gen50 {\n srv 127.0.0.1:%d graceful\n cb\n park\n}\n", in.Ports[3]))
 		done := make(chan error, 1)
 		go func() {
